@@ -267,7 +267,7 @@ PROPS["C13"] = dict(
                "(c) 48 instances run on free goroutines in a -race build. Every instance's output must equal its solo reference; two solo runs must be identical; the race detector must stay silent.",
     level_note="Trusted: Go's race detector; the harness schedules. Limits: preemption points inside an API call other than sink writes are only sampled by engine (c); sync.Pool's per-P caches make "
                "cross-goroutine buffer hand-over rare, which is why engines (a)/(b) run everything on one goroutine where pool reuse is certain.",
-    fixtures=["tiny", "flat24", "nest", "twin1", "twin2"],
+    fixtures=["tiny", "flat24", "nest", "twin1", "twin2", "twin3"],
     gen_anchored=True,
     race_bin=True,
     stages=[dict(test="TestC13", kind="rapid", quick=1600, thorough=32000),
